@@ -135,7 +135,7 @@ def predicate(ops, out):
     closed = False
     for op, o in zip(ops, out):
         f = op.split()
-        if o in ("panic", "bad-op") or (o.startswith("err-") and o != "err-blocked") or o.startswith("eof+"):
+        if o in ("panic", "bad-op") or o.startswith("err-") or o.startswith("eof+"):
             return f"unexpected result `{o}` for `{op}`"
         if f[0] == "new":
             sent, got, n_text, n_err, n_empty_msgs, n_empty_reads, closed = b"", b"", 0, 0, 0, 0, False
@@ -161,7 +161,7 @@ def predicate(ops, out):
                             f"{len(sent)-len(got)} byte(s) of the binary messages were never delivered")
                 if n_err != n_text:
                     return f"end of stream after {n_err} type errors for {n_text} text messages"
-            elif o == "err-blocked":      # Read hit its 5 s deadline (core retries the case alone before believing it)
+            elif o == "blocked":
                 if len(got) < len(sent) or n_err < n_text or closed:
                     return (f"`{op}` blocked although {len(sent)-len(got)} byte(s) of already received messages "
                             f"were still undelivered (delivered {len(got)} of {len(sent)})")
@@ -338,7 +338,7 @@ def pred_echo(ops, out):
     nmsg = 0
     for op, o in zip(ops, out):
         f = op.split()
-        if o in ("bad-op", "text-frame", "panic") or (o.startswith("err-") and not o.startswith("err-timeout:")):
+        if o in ("bad-op", "text-frame", "panic") or o.startswith("err-"):
             return f"unexpected result `{o}` for `{op}`"
         if f[0] == "new":
             sent, taken, text, nmsg = b"", 0, False, 0
@@ -363,7 +363,7 @@ def pred_echo(ops, out):
             n = int(f[1])
             want = due[:n]
             if len(want) < n:
-                if o != "err-timeout:" + (want.hex() or "-"):
+                if o != "timeout:" + (want.hex() or "-"):
                     return f"`{op}`: only {len(want)} more bytes are due, got `{o[-60:]}`"
                 taken += len(want)
                 continue
@@ -371,7 +371,7 @@ def pred_echo(ops, out):
                 how, _, got = o.rpartition(":")
                 gb = unhx(got) if is_hex(got) else b""
                 k = next((i for i in range(len(want)) if i >= len(gb) or gb[i] != want[i]), len(want))
-                ended = {"closed": ", then the broker closed the connection", "err-timeout": ", then nothing for 8 s"}.get(how, "")
+                ended = {"closed": ", then the broker closed the connection", "timeout": ", then nothing more although broker and connection were idle"}.get(how, "")
                 cfg = f" (broker max_packet_size={mp}, largest MQTT packet sent is within it)" if mp else ""
                 return (f"`{op}`: the broker's answer differs from the MQTT answer to the concatenated payloads at answer offset "
                         f"{taken+k} (got {len(gb)} bytes{ended}): after {len(sent)} stream bytes in {nmsg} WebSocket messages the "
